@@ -6,6 +6,7 @@ import (
 	"fmt"
 	"html/template"
 	"net/http"
+	"strings"
 	"time"
 
 	"github.com/zitadel/saml/pkg/provider/xml"
@@ -87,7 +88,12 @@ func (r *Response) sendBackResponse(
 			return
 		}
 
-		http.Redirect(w, req, fmt.Sprintf("%s?%s", r.AcsUrl, BuildRedirectQuery(string(respData), r.RelayState, r.SigAlg, r.Signature)), http.StatusFound)
+		separator := "?"
+		if strings.Contains(r.AcsUrl, "?") {
+			// the consumer URL already has a query component
+			separator = "&"
+		}
+		http.Redirect(w, req, fmt.Sprintf("%s%s%s", r.AcsUrl, separator, BuildRedirectQuery(string(respData), r.RelayState, r.SigAlg, r.Signature)), http.StatusFound)
 		return
 	default:
 		// no binding the response could be delivered with: hand the message back in the body instead of an empty reply
